@@ -547,12 +547,17 @@ func c12Coherence(rep *report, sink *checkCaseSink, s *schemeOps) {
 		if g, err := s.newHash(pw, 0); err == nil {
 			base = append(base, g)
 		}
-		cnt := 0
 		for _, b := range base {
 			lo, _ := digestSpan(s.name, b)
+			// per field: the explicit zero and the nearest values first; 16 spellings per field, every base
+			perField := map[int]int{}
 			for _, e := range numericNeighbours(b[:lo]) {
-				if cnt++; cnt > 160 {
-					break
+				k := 0
+				for k < len(e) && k < lo && e[k] == b[k] {
+					k++
+				}
+				if perField[k]++; perField[k] > 16 {
+					continue
 				}
 				hs = append(hs, e+b[lo:])
 			}
@@ -665,8 +670,8 @@ func numericNeighbours(h string) []string {
 		}
 		v, _ := strconv.Atoi(h[i:j])
 		seen := map[int]bool{v: true}
-		cands := []int{v - 3, v - 2, v - 1, v + 1, v + 2, v + 3, v / 2, 2 * v}
-		for k := 0; k <= 24; k++ {
+		cands := []int{0, v - 1, v + 1, 1, v - 3, v - 2, v + 2, v + 3, v / 2, 2 * v}
+		for k := 2; k <= 24; k++ {
 			cands = append(cands, k)
 		}
 		for _, c := range cands {
